@@ -681,6 +681,17 @@ func (m *metadataAPI) ReportLeader(ctx context.Context, req *proto.ReportLeaderO
 	}
 
 	m.mu.Lock()
+	// The failover status is looked up for the leader as it is now: a leader
+	// change applied since the check above has discarded the status that
+	// belonged to the reported leader, and this report must not be counted
+	// against the new one.
+	if leader, epoch := partition.GetLeader(); req.Leader != leader || req.LeaderEpoch != epoch {
+		m.mu.Unlock()
+		return status.New(
+			codes.FailedPrecondition,
+			fmt.Sprintf("Leader generation mismatch, current leader: %s epoch: %d, got leader: %s epoch: %d",
+				leader, epoch, req.Leader, req.LeaderEpoch))
+	}
 	failover := m.partitionFailovers[partition]
 	if failover == nil {
 		failover = newPartitionFailoverStatus(
